@@ -21,8 +21,8 @@ CLAIMS = {
         "component preservation of every Add/Sub/AddAssign/SubAssign/From impl, complete_with, destructure, and the iff for is_after_or_eq_any. "
         "All inputs, no bound.",
    note=TRUST + "std::time is modelled by stand-in types with integer-nanosecond views and platform ranges of Linux std; the panicking operators carry the "
-        "platform overflow condition as a precondition (the property's quantifier excludes platform overflow). StorageExt::get_time/set_time are thin "
-        "combinator wrappers (FutureExt::map / boxed) around the two verified conversion functions and are not themselves under contract.",
+        "platform overflow condition as a precondition (the property's quantifier excludes platform overflow). StorageExt::get_time/set_time (the real provided methods, storage group) are proved to store / return exactly these conversions, "
+        "with FutureExt::map / boxed as value-carrying stand-ins.",
    technique="contract-based deductive verification (Verus) of mechanically extracted functions",
    design="4/C19"),
  "C01": dict(
@@ -63,7 +63,7 @@ CLAIMS = {
    text="Proof (Verus) over the real run, wait_for_reboot, perform_update_check, ping_omaha, report_omaha_event_and_update_context: the machine returns without any interaction if an app is invalid; a negative check decision leads to no request/install in that iteration; "
         "a check runs with exactly the RequestParams inside the policy's decision and every request of the check (attempts, every event report, per-app report) carries them; the installer is invoked only after update_can_start answered Ok for that plan; "
         "reboot_needed is asked only after an install without failed app; perform_reboot happens exactly once and only when the most recent reboot_allowed answer is yes; the pending reboot question is upgraded to on-demand only by an on-demand request. "
-        "App::valid <=> id non-empty and version != 0.0.0.0 by a Kani harness (complete over versions).",
+        "App::valid <=> id non-empty and version != 0.0.0.0 by a Kani harness (complete over versions); AppSetExt::all_valid <=> every app valid (real body, apps group).",
    note=SMNOTE + "Branch choice of select! is arbitrary in the stand-in, so the clauses hold for every interleaving of timer firings and control requests at the granularity of await points; reply delivery (C11) is not modelled.",
    technique="contract-based deductive verification (Verus) with ghost interaction logs", design="4/C05"),
  "C06": dict(
@@ -79,14 +79,14 @@ CLAIMS = {
    technique="contract-based deductive verification (Verus) with ghost interaction logs", design="4/C07"),
  "C08": dict(
    text="Proof (Verus): failure counter (+1 saturating on failure, reset on success, ping included), persist_data = context block, app block, commit; Context::persist/load exact key encoding; "
-        "round-trip lemma and crash-prefix lemma over the storage log (a crash at any point exposes exactly the last completed commit).",
+        "round-trip lemma and crash-prefix lemma over the storage log (a crash at any point exposes exactly the last completed commit); StorageExt::{set_option_int, remove_or_log, commit_or_log} (real provided methods) issue exactly the one operation the state-machine contracts count on.",
    note=SMNOTE + "Assumes the documented Storage contract (writes cached until an atomic commit; reads return what was last written). last_update_time rules of start_update_check pending.",
    technique="contract-based deductive verification (Verus) with ghost interaction logs", design="4/C08"),
  "C09": dict(
    text="Proof (Verus) of the real Cohort::update_from_omaha (field-wise: a field the response carries, even empty, replaces; an absent one is kept), AppSetExt::update_from_omaha (every app of the set takes cohort merge and user counting of the FIRST response entry naming its id; apps not named are unchanged; nested loops with inductive invariants over the embedder's mutable app iterator), "
-        "App::load (only unset cohort fields / unset user counting are filled from the record stored under the app id; undecodable or missing record changes nothing), App::persist (one SetString(app id, JSON of cohort + user counting), no commit), PersistedApp::from, VecAppSet's AppSet impl (witness that the assumed AppSet contract is implementable), lemma persist-then-load restores every unset field; "
+        "AppSetExt::persist (one record per app, in app order, no commit) and AppSetExt::load (every app restored from its own record), App::load (only unset cohort fields / unset user counting are filled from the record stored under the app id; undecodable or missing record changes nothing), App::persist (one SetString(app id, JSON of cohort + user counting), no commit), PersistedApp::from, VecAppSet's AppSet impl (witness that the assumed AppSet contract is implementable), lemma persist-then-load restores every unset field; "
         "in the state-machine group: a successful ping / update check updates the app set to exactly that function of the parsed response and a failed one leaves it unchanged; make_app_responses carries cohort and day number; UserCounting::from; the wire side (cohort, ping ad = rd) is C15's From<AppEntry>.",
-   note=SMNOTE + "AppSet::iter_mut_apps is modelled as yielding mutable references to exactly get_apps' elements in order (Box<dyn Iterator> -> slice iterator type); serde_json (de)serialisation of PersistedApp is uninterpreted with an assumed round trip; AppSetExt::load/persist (async-block wrappers looping over the apps) remain assumed in the state-machine group.",
+   note=SMNOTE + "AppSet::iter_mut_apps is modelled as yielding mutable references to exactly get_apps' elements in order (Box<dyn Iterator> -> slice iterator type); serde_json (de)serialisation of PersistedApp is uninterpreted with an assumed round trip; AppSetExt::load/persist are async blocks in the source; their bodies are verified as free async fns over any AppSet (rule R36) and the state-machine group uses the same contract for persist.",
    technique="contract-based deductive verification (Verus) with ghost interaction logs", design="4/C09"),
  "C10": dict(
    text="Proof (Verus) of report_omaha_event_and_update_context: exactly the apps with an entry in next_versions get the event, with previous version = app version and next version = offered manifest version, "
